@@ -163,6 +163,9 @@ class AbstractPathModelDAG(ABC):
             raise ValueError(f"The input graph G has no edges. Please provide a graph with at least one edge.")
         self.id = self.G.id
         self.k = k
+        if k is None or k <= 0:
+            utils.logger.error(f"{__name__}: k must be positive, got {k}.")
+            raise ValueError(f"k must be positive, got {k}.")
         self.length_attr = length_attr
         
         self.subpath_constraints = copy.deepcopy(subpath_constraints)
